@@ -33,7 +33,7 @@ class FusedMatMulDiv1(orp.RewriteRuleClassBase):
         if cst.const_value is None:
             return check_result.fail("Divisor is not a constant value.")
         value = cst.const_value.numpy()
-        if value.size > 1:
+        if value.size > 1 or value.ndim > 1:
             return check_result.fail("Divisor is not a scalar value.")
         return check_result
 
@@ -53,7 +53,8 @@ class FusedMatMulDiv2(orp.RewriteRuleClassBase):
         check_result = orp.MatchResult()
         if cst.const_value is None:
             return check_result.fail("Divisor is not a constant value.")
-        if cst.const_value.numpy().size > 1:
+        value = cst.const_value.numpy()
+        if value.size > 1 or value.ndim > 1:
             return check_result.fail("Divisor is not a scalar value.")
         return check_result
 
